@@ -28,6 +28,10 @@ mod c09;
 mod c10;
 #[cfg(feature = "std")]
 mod c11;
+#[cfg(feature = "std")]
+mod c12;
+#[cfg(feature = "std")]
+mod c20;
 mod linkfmt;
 mod observe;
 
@@ -48,6 +52,8 @@ fn table() -> Vec<(&'static str, CheckFn)> {
         t.push(("C09", c09::run));
         t.push(("C10", c10::run));
         t.push(("C11", c11::run));
+        t.push(("C12", c12::run));
+        t.push(("C20", c20::run));
         t.push(("C13", c13::run));
     }
     t.push(("C14", observe::run_c14));
